@@ -297,12 +297,18 @@ def r5_encodings(r, facts):
     ok = len(idw) == 1 and ('fd::Kind', 'Direct') in idw[0].conds
     if ok:
         e = idw[0].expr
+        # see through an extracted helper such as `direct_index(fd)`
+        s44 = g.at(idw[0].loc) if not g.is_term(idw[0].loc) else None
+        if s44 is not None and s44['k'] == 'assign':
+            rv44 = s44['rv']
+            ebi = ExprBuilder(g, multi='phi', inline=True)
+            e = ebi.operand(rv44['ops'][0]) if rv44['k'] == 'agg' and rv44.get('ops') else ebi.rvalue(rv44)
         plus1 = any(x[0] == 'bin' and x[1] in ('Add', 'AddWithOverflow') and any(y[0] == 'const' and y[1] == 1 for y in (x[2], x[3])) and any(y[0] == 'arg' for y in (x[2], x[3])) for x in subexprs(e))
         ok = plus1
     r.require(ok, 'close_file_fd/direct', 'direct descriptors: file_index is not fd + 1 on exactly the Kind::Direct arm: %s' % idw, g.where())
     # close_direct_fd
     d = facts.fn(CLOSE_DIRECT_FD)
-    ed = ExprBuilder(d, multi='phi')
+    ed = ExprBuilder(d, multi='phi', inline=True)
     upd = None
     for loc, s in d.assigns():
         rv = s['rv']
